@@ -1042,6 +1042,10 @@ class Value(Term):
         # can't use == as that builds a larger expression
         if not isinstance(other, Value):
             return False
+        if type(self.value) != type(other.value):
+            return False  # 1, 1.0 and True are different constants (they print and translate differently)
+        if self.value != self.value:
+            return other.value != other.value  # nan is the same constant as nan
         return self.value == other.value
 
     def act_on(self, arg, *, expr_walker: ExpressionWalker):
